@@ -9,7 +9,7 @@ import vlib
 LEVEL = "model_checking"
 DELAY_MAP = {0: 0, 1: 1, 2: 99, 3: 100, 4: 101}        # small-R model delay -> real (R = 100)
 QOK = ["QS\r", "QC\r", "QL\r", "QT\r", "QP\r", "QB\r", "qs\r", "QN\r", "QE\r", "QR\r"]
-QNOOK = ["V\r", "v\r", "PI,E,0\r", "PI,C,1\r", "QM\r", "QG\r", "A\r", "I\r", "MR\r", "qg\r", "pi,A,6\r"]
+QNOOK = ["V\r", "v\r", "PI,B,15\r", "PI,E,0\r", "PI,C,1\r", "QM\r", "QG\r", "A\r", "I\r", "MR\r", "qg\r", "pi,A,6\r"]
 CMDS = ["EM,1,1\r", "SM,100,0,0\r", "SP,1\r", "TP\r", "SC,4,16000\r", "XM,10,1,-1\r"]
 
 
@@ -38,6 +38,10 @@ class LegacyPort:
     def arm(self, plan, n, name):
         self.plan, self.n, self.name, self.reads, self.data_out, self.raised = plan, n, name, 0, False, False
 
+    def _exc(self, msg):
+        """a serial I/O exception: pyserial's own, or the OSError the operating system layer raises under it"""
+        return OSError(5, msg) if self.plan.get("exc") == "oserror" else self.serial.SerialException(msg)
+
     def _text(self, tok):
         if tok[0] == "ok":
             return "OK\r\n"
@@ -60,8 +64,9 @@ class LegacyPort:
         p = self.plan
         if p["fault"] == "wraise":
             self.log.append({"ev": "wx"})
-            raise self.serial.SerialException("injected write failure")
-        self.log.append({"ev": "w", "text": data.decode("ascii", "replace")})
+            raise self._exc("injected write failure")
+        txt = data.decode("ascii", "replace") if isinstance(data, (bytes, bytearray)) else "<not bytes: %r>" % (data,)
+        self.log.append({"ev": "w", "text": txt, "body": txt.rstrip("\r\n")})
         if p["fault"] == "silent":
             return len(data)
         n = self.n
@@ -84,10 +89,11 @@ class LegacyPort:
         p = self.plan
         self.reads += 1
         if (p["fault"] == "r1raise" and self.reads == 1) or (p["fault"] == "r2raise" and self.reads == 2) \
-                or (p["fault"] == "rNraise" and self.data_out and not self.raised):
+                or (p["fault"] == "rNraise" and self.data_out and not self.raised) \
+                or (p["fault"] == "rkraise" and self.reads == p.get("rk", 1)):
             self.raised = True
             self.log.append({"ev": "rx"})
-            raise self.serial.SerialException("injected read failure")
+            raise self._exc("injected read failure")
         if not self.q:
             self.log.append({"ev": "r", "tok": ["empty"]})
             return b""
@@ -128,16 +134,18 @@ def run_script(mods, script, tid):
         text = text.rstrip("\r") + term
         name = text.split(",")[0].strip().lower()
         log.append({"ev": "call", "first": k == 0, "fn": fn, "name": name, "kind": kind, "d1": plan["d1"], "d2": plan["d2"],
-                    "fault": plan["fault"], "text": text, "blank": bool(plan.get("blank"))})
+                    "fault": plan["fault"], "text": text, "body": text.rstrip("\r\n"), "blank": bool(plan.get("blank")), "exc": plan.get("exc", "serial"),
+                    "rk": plan.get("rk", 0)})
         port.arm(plan, n, name)
         f = getattr(ebb_serial, fn)
+        extra = (False,) if plan.get("quiet") else ()             # verbose=False: the same behaviour, logged at a lower level
         try:
             if kind == "noport":
-                val = f(None, text)
+                val = f(None, text, *extra)
             elif kind == "notext":
-                val = f(port, None)
+                val = f(port, None, *extra)
             else:
-                val = f(port, text)
+                val = f(port, text, *extra)
             if val is None:
                 cls, tok = "none", ["empty"]
             elif isinstance(val, str):
@@ -235,18 +243,28 @@ def run(ctx):
     # V: random longer histories, arbitrary delays and faults
     nv = 300 if tier == "quick" else 6000
     vs = []
-    for _ in range(nv):
+    for hn in range(nv):
         s = []
-        for _k in range(rng.randint(1, 8)):
+        clean = hn % 3 == 0                  # a third of the histories conform throughout, so alignment is judged at every position of long histories
+        for _k in range(rng.randint(4, 10) if clean else rng.randint(1, 8)):
             kind = rng.choice(["cmd", "qok", "qok", "qnook", "qnook", "noport", "notext"])
             fault = "none"
-            if kind in ("cmd", "qok", "qnook") and rng.random() < 0.12:
-                fault = rng.choice(["wraise", "r1raise", "r2raise", "errline", "silent"] + (["rNraise"] if kind == "qok" else []))
-            d = lambda: rng.choice([0, 0, 0, 0, 1, 1, 2, 3, 7, 50, 99, 100, 100, 101, 130])  # noqa: E731
-            if kind in ("noport", "notext"):
-                s.append({"kind": kind, "d1": 0, "d2": 0, "fault": "none", "blank": False})
+            if not clean and kind in ("cmd", "qok", "qnook") and rng.random() < 0.15:
+                fault = rng.choice(["wraise", "r1raise", "r2raise", "errline", "silent", "rkraise", "rkraise"] + (["rNraise"] if kind == "qok" else []))
+            if clean:
+                d = lambda: rng.choice([0, 0, 0, 0, 1, 1, 2, 3, 7, 50, 99, 100, 100])  # noqa: E731
             else:
-                s.append({"kind": kind, "d1": (rng.choice([1, 2, 5, 100]) if fault == "r2raise" else d()) if fault != "rNraise" else rng.choice([0, 1, 5]), "d2": d() if kind == "qok" else 0, "fault": fault,
+                d = lambda: rng.choice([0, 0, 0, 0, 1, 1, 2, 3, 7, 50, 99, 100, 100, 101, 130])  # noqa: E731
+            quiet = rng.random() < 0.3
+            exc = rng.choice(["serial", "oserror"])
+            if kind in ("noport", "notext"):
+                s.append({"kind": kind, "d1": 0, "d2": 0, "fault": "none", "blank": False, "quiet": quiet})
+            else:
+                d1 = (rng.choice([1, 2, 5, 100]) if fault == "r2raise" else d()) if fault != "rNraise" else rng.choice([0, 1, 5])
+                d2 = d() if kind == "qok" else 0
+                # the k-th read raises: anywhere in the empty reads before the first line, at it, in the wait for OK, or at the OK itself
+                rk = rng.choice([1, 2, 3, d1, d1 + 1, d1 + 2, d1 + 1 + d2, d1 + 2 + d2, rng.randint(1, 12)]) if fault == "rkraise" else 0
+                s.append({"kind": kind, "d1": d1, "d2": d2, "fault": fault, "exc": exc, "rk": max(1, rk) if fault == "rkraise" else 0, "quiet": quiet,
                           "blank": fault == "none" and kind in ("qok", "qnook") and rng.random() < 0.12})
         vs.append(s)
     logs, nbad = judge_batch(ctx, "V", vs, "v")
@@ -255,7 +273,8 @@ def run(ctx):
     import legacy_extra
     legacy_extra.run_stage(ctx)          # growth beyond the list: testPort handshake and query_enable_motors decode (observations only)
     ctx.trusted += ["TLC 1.8", "harness/c07.py LegacyPort (cross-checked against LegacyOps by the desync clauses)", "vlib parser"]
-    ctx.assumptions += ["a timeout is an empty read; faults are serial.SerialException at a write or read, an 'Err:' line, or silence",
+    ctx.assumptions += ["a timeout is an empty read; faults are a serial I/O exception (serial.SerialException or OSError) at the write or at any read, an 'Err:' line, or silence",
+                        "'writes the request' is judged on the request text without its line ending (callers terminate requests differently)",
                         "legacy board answers per the EBB documentation: data line + OK, or one line for a/i/mr/pi/qm/qg/v"]
     return ctx.finish(
         rule="G: every 2-request history of the generating LegacyLink config (kinds cmd/qok/qnook/noport/notext x delays {0,1,99,100,101} "
